@@ -110,7 +110,7 @@ func judgeOps(res *explore.Result, ncols int, ops []script.Ev, stmtIdx int, wher
 			}
 		case strings.HasPrefix(e.Op, "c="):
 			cls = "c"
-			tag := e.Op[2:]
+			tag := script.ExpandTag(e.Op[2:])
 			if !failed {
 				if kinds != "C" || ms[0].Tag != tag {
 					res.Fail("complete-ok-but-not-one-commandcomplete", fmt.Sprintf("%s: Complete(%q) returned nil but emitted %v", where, tag, pgproto.Strings(ms)))
